@@ -804,9 +804,36 @@ def w2(ctx, rep):
     n = 0
     writers = sorted({e.body.id.split("::{closure")[0] for e in ctx.events if e.asyncio and e.cls in LNBBN})
     rep.floor("W2 ln/bbn page writers", len(writers), 2)
+    FINISH_ = "nomt::beatree::allocator::SyncFinisher::finish"
+
+    def from_finish(body, op, depth=0):
+        """the operand is computed from the result of SyncFinisher::finish (through aggregates, calls and loops over it)"""
+        import termination
+
+        if termination.derives_from(body, op, lambda r: r.kind == "call" and r.what == FINISH_):
+            return True
+        if depth < 3:
+            for r in trace(body, op):
+                if r.kind == "agg" and r.obj is not None and any(from_finish(body, o, depth + 1) for o in r.obj.get("ops", [])):
+                    return True
+        return False
+
+    def writes_finish_pages_only(fn):
+        """every ln/bbn page write of fn writes what SyncFinisher::finish produced (the encoded free-list pages): the role of
+        `submit_freelist_write`, wherever that code lives"""
+        evs = [e for e in ctx.events if e.asyncio and e.cls in LNBBN and e.body.id.split("::{closure")[0] == fn]
+        if not evs:
+            return False
+        for e in evs:
+            t = e.body.term(e.bb)
+            if t["k"] != "call" or not any(from_finish(e.body, a) for a in t["args"][1:]):
+                return False
+        return True
+
     for fn in writers:
         bodies = [ctx.facts.bodies[fn]] + ctx.facts.closures_of(fn)
         is_fl = fn == "nomt::beatree::writeout::submit_freelist_write"
+        inline_fl = (not is_fl) and writes_finish_pages_only(fn)
         n_alloc = 0
         for body in bodies:
             sh = short(fn)
@@ -838,12 +865,14 @@ def w2(ctx, rep):
                     dty = body.place_ty(t["dest"])
                     if c == ALLOCATE:
                         n_alloc += 1
+                    elif inline_fl and c == FINISH_:
+                        pass  # the free-list writer's source, checked below
                     elif (c.startswith("nomt::") or c.startswith("<nomt::")) and "PageNumber" in dty and not c.endswith("as core::clone::Clone>::clone"):
                         n += 1
                         rep.violation("W2", sh, "call=%s" % short(c), "%s (returning %s) is called at %s inside a page writer: page numbers may only be obtained from SyncAllocator::allocate there" % (short(c), dty, t.get("ln")), site=t.get("ln"))
                     for a in t["args"]:
                         ops.append((a, t.get("ln")))
-                if is_fl:
+                if is_fl or inline_fl:
                     continue
                 for (o, ln) in ops:
                     if o["k"] not in ("copy", "move"):
@@ -867,6 +896,9 @@ def w2(ctx, rep):
                 n += 1
                 ok = any(r.kind == "call" and r.what == "nomt::beatree::allocator::SyncFinisher::finish" for r in trace(cbody, t["args"][2]))
                 rep.check(ok, "W2", short(cid), "submit_freelist_write arg", "the pages handed to submit_freelist_write at %s do not come from SyncFinisher::finish" % t.get("ln"), site=t.get("ln"), detail="free-list pages at %s derive from SyncFinisher::finish" % t.get("ln"))
+        elif inline_fl:
+            n += 1
+            rep.ok("W2", short(fn), "writes-finish-pages", detail="every ln/bbn page write of %s writes a page produced by SyncFinisher::finish (the free-list pages)" % short(fn))
         else:
             n += 1
             rep.check(n_alloc >= 1, "W2", short(fn), "allocates", "page writer %s submits page writes but never calls SyncAllocator::allocate" % short(fn), site=ctx.facts.bodies[fn].span, detail="%d allocate call(s); no other source of PageNumber in scope" % n_alloc)
